@@ -188,12 +188,62 @@ class Analyzer:
         self.inlined = set()     # helpers (not in the reference tree) analysed in the context of a call site
         self.field_rng = {}      # (adt, field name) -> interval inferred from all write sites (private fields only)
         self.field_writes = {}   # collected during a round
+        self.param_rng = {}      # (fn id, parameter local) -> interval joined over all call sites (crate-private fns only)
+        self.param_calls = {}    # collected during a round
+        self.param_ok = self._private_fns(prog)
         self.private = {}
         for path, adt in prog.adts.items():
             if adt["kind"] == "struct":
                 for f in adt["variants"][0]["fields"]:
                     if not f.get("pub") and is_int(f["ty"]):
                         self.private[(path, f["name"])] = f["ty"]
+
+    @staticmethod
+    def _private_fns(prog):
+        """ids of functions every caller of which is in the analysed crates: not `pub`, not a trait method, never used
+        as a function value (so all calls are direct calls the analysis sees)"""
+        taken = set()
+        for f in prog.fns.values():
+            if not f.body:
+                continue
+            for b in f.body["blocks"]:
+                ops = []
+                for s_ in b["s"]:
+                    rv = s_.get("rv") or {}
+                    ops += [rv.get("a"), rv.get("b")] + list(rv.get("ops") or [])
+                t = b["t"]
+                if t and t["k"] == "call":
+                    ops += list(t["args"])
+                    if f.kind not in ("fn", "assoc_fn", "closure") or "::mock_display::" in f.id:
+                        # a caller the interval analysis does not visit (const initialiser, test helper): its callees
+                        # keep their contract ranges
+                        r_ = t["f"].get("resolved") or t["f"]
+                        taken.add(r_.get("path"))
+                        taken.add(t["f"].get("path"))
+                for o in ops:
+                    c = (o or {}).get("const") if isinstance(o, dict) else None
+                    ty = c.get("ty") if c else None
+                    if isinstance(ty, dict) and "fndef" in ty:
+                        taken.add(ty.get("id") or ty["fndef"])
+                        taken.add(ty["fndef"])
+        out = set()
+        for f in prog.fns.values():
+            if f.kind not in ("fn", "assoc_fn") or not f.body or f.d.get("vis") == "pub":
+                continue
+            im = prog.impls.get(f.impl) if f.impl else None
+            if (im and im.get("trait")) or f.d.get("trait_def"):
+                continue
+            if f.id in taken or f.path in taken:
+                continue
+            out.add(f.id)
+        return out
+
+    def record_param(self, g, loc, v, ty):
+        k = (g.id, loc)
+        if v is None:
+            v = TYPE_RANGE[ty]
+        old = self.param_calls.get(k)
+        self.param_calls[k] = v if old is None else join(old, v)
 
     def record_field(self, adt, fname, v):
         k = (adt, fname)
@@ -209,12 +259,15 @@ class Analyzer:
         for r in range(rounds):
             self.summaries = {}
             self.field_writes = {}
+            self.param_calls = {}
             for f in fns:
                 self.summary(f)
             new = dict(self.field_writes)
-            if new == self.field_rng:
+            newp = dict(self.param_calls)
+            if new == self.field_rng and newp == self.param_rng:
                 break
             self.field_rng = new
+            self.param_rng = newp
         self.summaries = {}
 
     # ---- types --------------------------------------------------------------------------------
@@ -399,6 +452,9 @@ class FnRun:
         entry = 1 <= local <= self.body["argc"]
         if stack and stack[-1] in self.an.field_rng:
             return clamp(self.an.field_rng[stack[-1]], TYPE_RANGE[ty])
+        if entry and not proj and (self.fn.id, local) in self.an.param_rng:
+            # a crate-private function: the parameter takes only the values its call sites pass
+            return clamp(self.an.param_rng[(self.fn.id, local)], TYPE_RANGE[ty])
         if entry or stack:
             return self.an.contracts.for_place(ty, stack, name)
         return TYPE_RANGE[ty]
@@ -669,6 +725,13 @@ class FnRun:
             cond = None
             if ret is None and not extra:
                 cands = [g for g in self.prog.by_path.get(path, []) if g.body and g.kind in ("fn", "assoc_fn")]
+                if len(cands) == 1 and cands[0].id in self.an.param_ok:
+                    g0 = cands[0]
+                    for i_, a_ in enumerate(args):
+                        if i_ + 1 <= g0.body["argc"]:
+                            pty = g0.body["locals"][i_ + 1]["ty"]
+                            if is_int(pty):
+                                self.an.record_param(g0, i_ + 1, a_, pty)
                 if len(cands) == 1 and self.depth < 4 and cands[0].id not in self.an.active:
                     g = cands[0]
                     targs = self.callee_targs(g, r)
